@@ -609,6 +609,12 @@ waitCrash:
 		o.Class("filed-ended-itself")
 		vkit.Note(P, "file.d ended itself during a case (not judged): "+first)
 		miss = nil
+		if strings.Contains(first, "offset corruption") && !hadTrunc {
+			// no truncation anywhere: the restarted file.d took an event it had already committed for new
+			// (or committed one twice) and killed itself over it; every further start meets the same offsets
+			// file and the same lines, so what lies behind them is never delivered
+			o.Failf(P, "restarted-filed-ends-itself:offset-corruption", "after the restart file.d ended itself: %s; offsets file at the kill (present=%v):\n%s", first, haveOffsets, snapshot)
+		}
 	} else {
 		r2.stop()
 	}
